@@ -42,7 +42,7 @@ Definition ccode6 (x : cons) : N * N * N * N * N * N :=
                         | CAccRet code => (3, nn code, nwatch x, 0)
                         | _ => (2, 0, nwatch x, 0)
                         end)%N in
-  (a, b, c, d, nn (ww_fired x), (match ww_firepc x with None => (if ac_wpark x then 1 else 0) | Some RGate => 1 | Some RDone => 5 end)%N).
+  (a, b, c, d, nn (ww_fired x), (if ac_wpark x then 1 else match ww_firepc x with None => 0 | Some RGate => 1 | Some RDone => 5 end)%N).
 
 Definition pobs_of (rets : list N) (s : st) (from : nat) : pobs :=
   {| po_rets := rets; po_gs := map gcode (gs s); po_target := nn (target s); po_terr := nn (terr s);
